@@ -8,6 +8,8 @@ import orc
 
 
 def run(res, replay=None):
+    # structural tie of phasegen/rewards.py: translate the CURRENT source and re-check proofs/GenRewardsEquiv.v against it
+    import translate_step; (res.proof is not None) and translate_step.run(res.proof, pid=res.pid, tie='rewards')
     rng = random.Random(res.seed)
     res.rule = ('marginals stream: structured configurations with 2-3 demes (n<=4, three models, 1-2 epochs) and two-locus '
                 'configurations: per-population means sum to the mean, covariance entries sum to the variance, symmetry, '
